@@ -2691,3 +2691,39 @@ Proof.
   intros Hi Hnd Hf Hna.
   exact (ci_heights _ (chain_inv_run le hist t0 (inv_init _ _ _ _ Hi) (chain_inv_init _ _ _ _ Hi Hnd) Hf Hna)).
 Qed.
+
+(* ------------------------------------------------------------------------------------------ *)
+(* the monitor's vocabulary (TowerMon.completing) agrees with `completes` outside the reorged set *)
+From TeosModel Require TowerMon.
+
+Lemma completes_matches_monitor txids h k :
+  completes txids h [] k = TowerMon.completing h txids k.
+Proof.
+  unfold completes, TowerMon.completing. cbn [mem_uuid existsb negb andb].
+  change Consts.IRREVOCABLY_RESOLVED with 100%Z. rewrite IRR_100.
+  destruct (memN (t_penalty k) txids), (t_conf k); cbn [negb andb]; try reflexivity;
+    try (rewrite andb_false_r; reflexivity); rewrite andb_true_r;
+    destruct (N.eqb_spec (h - t_height k) 100), (Z.eqb_spec (Z.of_N h - Z.of_N (t_height k)) 100); try reflexivity; lia.
+Qed.
+
+(* 4 / 5: the two loops, as functions of the carrier's answers e (= eff_status of the state they start from) *)
+Theorem reorged_loop_spec sc h us t rej0 rej t' :
+  Inv t -> reorged_loop sc h us t rej0 = Ok rej t' ->
+  rej = rej0 ++ filter (reorg_rejected (eff_status sc t) (db_trks t)) us /\
+  (exists m l, t' = with_carrier (set_db_trks t (reorg_rows (eff_status sc t) h us (db_trks t))) m l) /\
+  carried sc t t' /\
+  (forall uuid k, In uuid us -> find_trk (db_trks t) uuid = Some k -> reorg_covered (eff_status sc t) t' k).
+Proof.
+  intros HI E. exact (reorged_loop_gen sc h (eff_status sc t) us t rej0 rej t' (inv_trks_nodup t HI) (fun x => eq_refl) E).
+Qed.
+
+Theorem stale_loop_spec sc h us t rej0 :
+  Inv t -> (forall u, In u us -> find_trk (db_trks t) u <> None) ->
+  exists t', stale_loop sc h us t rej0 = Ok (rej0 ++ filter (stale_rejected (eff_status sc t) (db_trks t)) us) t' /\
+    (exists m l, t' = with_carrier (set_db_trks t (stale_rows (eff_status sc t) h us (db_trks t))) m l) /\
+    carried sc t t' /\
+    (forall u k, In u us -> find_trk (db_trks t) u = Some k ->
+                 aget (car_memo t') (t_penalty k) = Some (eff_status sc t (t_penalty k))).
+Proof.
+  intros HI Hrows. exact (stale_loop_gen sc h (eff_status sc t) us t rej0 (inv_trks_nodup t HI) (fun x => eq_refl) Hrows).
+Qed.
